@@ -171,6 +171,55 @@ theorem step_NOT (hr : Spec.step env .NOT st ≠ .err) :
     Impl.step env .NOT (stk pre st) = (Spec.step env .NOT st).map' (stk pre) := by step_top1
 end
 
+section
+variable (env : Env) (pre st : List Val)
+
+theorem step_APPLY (hr : Spec.step env .APPLY st ≠ .err) :
+    Impl.step env .APPLY (stk pre st) = (Spec.step env .APPLY st).map' (stk pre) := by
+  rcases st with _ | ⟨a, _ | ⟨b, st⟩⟩
+  · exact absurd rfl hr
+  · exact absurd rfl hr
+  · cases b <;> first | (exact absurd rfl hr) | skip
+    rename_i ta tb body
+    cases ta <;> first | (exact absurd rfl hr) | skip
+    rename_i lt rt
+    simp only [Spec.step] at hr ⊢
+    by_cases h : typeOf a = lt
+    · simp [Impl.step, h]
+    · simp [h] at hr
+
+theorem step_CONS (hr : Spec.step env .CONS st ≠ .err) :
+    Impl.step env .CONS (stk pre st) = (Spec.step env .CONS st).map' (stk pre) := by
+  rcases st with _ | ⟨a, _ | ⟨b, st⟩⟩
+  · exact absurd rfl hr
+  · exact absurd rfl hr
+  · cases b <;> first | (exact absurd rfl hr) | skip
+    rename_i t xs
+    simp only [Spec.step] at hr ⊢
+    by_cases h : typeOf a = t
+    · simp [Impl.step, h]
+    · simp [h] at hr
+
+theorem step_SLICE (hr : Spec.step env .SLICE st ≠ .err) :
+    Impl.step env .SLICE (stk pre st) = (Spec.step env .SLICE st).map' (stk pre) := by
+  rcases st with _ | ⟨a, st⟩
+  · exact absurd rfl hr
+  cases a <;> first | (exact absurd rfl hr) | skip
+  rename_i ta x
+  cases ta <;> first | (exact absurd rfl hr) | skip
+  rcases st with _ | ⟨b, st⟩
+  · exact absurd rfl hr
+  cases b <;> first | (exact absurd rfl hr) | skip
+  rename_i tb y
+  cases tb <;> first | (exact absurd rfl hr) | skip
+  rcases st with _ | ⟨c, st⟩
+  · exact absurd rfl hr
+  cases c <;> first | (exact absurd rfl hr) | skip
+  all_goals
+    simp only [Impl.step, Spec.step, pop3_mk_cons, Res.bind_ok, Spec.slice, map'_ok]
+    split <;> simp_all
+end
+
 /-- **simple instructions**: whenever the reference rule applies, the mirror's pop/push sequence on a stack with
 any protected prefix `pre` yields the rule's result under the same prefix -/
 theorem step_refines (env : Env) (i : Instr) (pre st : List Val) (hr : Spec.step env i st ≠ .err) :
@@ -234,20 +283,8 @@ theorem step_refines (env : Env) (i : Instr) (pre st : List Val) (hr : Spec.step
       · simp only [h, if_true, map'_ok, Impl.step]
         exact dug_refines pre st n x h
       · simp [h] at hr
-  case APPLY =>
-    rcases st with _ | ⟨a, _ | ⟨b, st⟩⟩
-    · simp [Spec.step] at hr
-    · simp [Spec.step] at hr
-    · cases b <;> simp_all [Impl.step, Spec.step]
-      rename_i ta tb body
-      cases ta <;> simp_all [Impl.step, Spec.step]
-      split <;> simp_all
-  case CONS =>
-    rcases st with _ | ⟨a, _ | ⟨b, st⟩⟩
-    · simp [Spec.step] at hr
-    · simp [Spec.step] at hr
-    · cases b <;> simp_all [Impl.step, Spec.step]
-      split <;> simp_all
+  case APPLY => exact step_APPLY env pre st hr
+  case CONS => exact step_CONS env pre st hr
   case ADD | SUB | MUL =>
     all_goals
       rcases st with _ | ⟨a, _ | ⟨b, st⟩⟩
@@ -291,17 +328,6 @@ theorem step_refines (env : Env) (i : Instr) (pre st : List Val) (hr : Spec.step
         · rw [← bytesVals_eq] at hr ⊢
           cases Impl.bytesVals xs <;> simp_all
       all_goals simp [Spec.step] at hr
-  case SLICE =>
-    rcases st with _ | ⟨a, _ | ⟨b, _ | ⟨c, st⟩⟩⟩
-    · simp [Spec.step] at hr
-    · cases a <;> simp [Spec.step] at hr
-    · cases a <;> cases b <;> simp [Spec.step] at hr
-    · cases a <;> cases b <;> try (simp [Spec.step] at hr; done)
-      rename_i ta x tb y
-      cases ta <;> cases tb <;> try (simp [Spec.step] at hr; done)
-      cases c <;> try (simp [Spec.step] at hr; done)
-      all_goals
-        simp only [Impl.step, Spec.step, pop3_mk_cons, Res.bind_ok, Spec.slice, map'_ok]
-        split <;> simp_all
+  case SLICE => exact step_SLICE env pre st hr
 
 end Interp
